@@ -188,6 +188,32 @@ pub fn run(args: &Args) -> i32 {
             }
         }
     }
+    // (ii-b) the settings dialog in depth: first the navigation fixpoint (every tab, every row),
+    // then from EVERY navigation state all sequences of <= k events of the dialog's whole alphabet
+    // (column toggle / move up / move down, navigation, leaving and re-entering the dialog) - so
+    // every action is tried on every row of every tab, the last row included
+    {
+        let nav: Vec<Ev> = ["next_hop", "previous_hop", "next_trace", "previous_trace"].iter().map(|k| Ev::Key(k)).collect();
+        let keys = ["next_hop", "previous_hop", "next_trace", "previous_trace", "toggle_chart", "next_hop_address", "previous_hop_address", "toggle_settings", "toggle_settings_columns"];
+        let al: Vec<Ev> = keys.iter().map(|k| Ev::Key(k)).collect();
+        for (ci, (name, cfg)) in [&configs[0], &configs[3], &configs[4]].into_iter().enumerate().take(if tier == Tier::Thorough { 3 } else { 2 }) {
+            let k = match (tier, ci) {
+                (Tier::Thorough, _) => 3,
+                (Tier::Quick, 0) => 2,
+                (Tier::Quick, _) => 1,
+            };
+            let root = vec![Ev::Trace(TraceEv::Path3, 0), Ev::Key("toggle_settings")];
+            let fix = explore::bfs(cfg, &nav, &root, 120, usize::MAX, &no_check);
+            let r = explore::bfs_roots(cfg, &al, &fix.reached, k, usize::MAX, &|_| 0, usize::MAX, &no_check);
+            states += r.states;
+            transitions += fix.transitions + r.transitions;
+            max_depth = max_depth.max(fix.max_depth + r.max_depth);
+            for (h, f) in fix.fails.iter().chain(&r.fails) {
+                record(&mut findings, "C17", cfg, h, f, None);
+            }
+            phases.push(json!({"phase": "settings-deep", "config": name, "navigation_states": fix.states, "navigation_fixpoint": fix.fixpoint, "navigation_depth": fix.max_depth, "alphabet": al.len(), "events_from_every_navigation_state": k, "states": r.states, "transitions": r.transitions, "failures": fix.fails.len() + r.fails.len()}));
+        }
+    }
     // (iii) terminal sizes on the reached state set
     let mut sizes: Vec<(u16, u16)> = vec![(1, 1), (2, 2), (10, 5), (40, 10), (80, 24), (120, 40), (300, 100)];
     if tier == Tier::Thorough {
@@ -243,7 +269,7 @@ pub fn run(args: &Args) -> i32 {
     rep.set("redraws_at_other_sizes", json!(redraws));
     rep.set("terminal_sizes", json!(sizes.len()));
     rep.set("phases", json!(phases));
-    rep.set("rule", json!("state = history of events replayed on a fresh real TuiApp (+ real un-started Tracers fed by verif_apply_round) drawn with the real render on a TestBackend; events = every binding of run_app's dispatch chain under the same mode gating (46 commands; table checked against the source at start-up) + 7 trace updates per target (3-hop path, shorter path, other ECMP branch, nothing answers, failed probes, 5-hop path with unknown hop, fatal error); each step does what one turn of run_app does (snapshot/clamp/order unless frozen, draw). Level-synchronous BFS de-duplicated on a canonical key (UI fields verbatim, trace state by shape); full alphabet to the depth bound per configuration, projected alphabets towards a fixpoint; every picked reached state re-drawn at the listed terminal sizes. Oracle: no panic in any command, loop-top or draw; selected hop/address/flow/trace/settings tab refer to existing entries before every draw"));
+    rep.set("rule", json!("state = history of events replayed on a fresh real TuiApp (+ real un-started Tracers fed by verif_apply_round) drawn with the real render on a TestBackend; events = every binding of run_app's dispatch chain under the same mode gating (46 commands; table checked against the source at start-up) + 7 trace updates per target (3-hop path, shorter path, other ECMP branch, nothing answers, failed probes, 5-hop path with unknown hop, fatal error); each step does what one turn of run_app does (snapshot/clamp/order unless frozen, draw). Level-synchronous BFS de-duplicated on a canonical key (UI fields verbatim, trace state by shape); full alphabet to the depth bound per configuration, projected alphabets towards a fixpoint; settings dialog: navigation fixpoint (every tab, every row), then every sequence of <= 2 (quick; 1 on the column-set variants; 3 thorough) dialog events from every navigation state; every picked reached state re-drawn at the listed terminal sizes. Oracle: no panic in any command, loop-top or draw; selected hop/address/flow/trace/settings tab refer to existing entries before every draw"));
     rep.sample(json!({"config": "single-target", "history": ["trace0:Branch", "key:toggle_flows", "key:clear_trace_data"]}));
     rep.assumptions = vec!["command table replicates run_app's dispatch (self-checked against the source text)".into(), "clock pinned; DNS cache pre-seeded (flush re-seeds at once); GeoIP from a generated fixture".into(), "counters/latencies are not part of the canonical key (DESIGN.md 3/C17)".into()];
     rep.finish()
